@@ -1,6 +1,7 @@
 package main
 
 import (
+	"context"
 	"fmt"
 
 	"github.com/hslam/rpc"
@@ -239,22 +240,38 @@ func c04Lost(x *X) {
 	so := srvOpts{bufSize: 64}
 	srv, _ := startListener(n, w, "srv", so, false)
 	vs.Quiesce()
-	// the first response frame is dropped and the link dies
-	n.onDial = func(string) { n.conns[len(n.conns)-1].end.p.cutDrop[1] = 1 }
+	// the response of the judged call is dropped and the link dies
 	args := mkPayload(7, 0, 40)
 	var reply []byte
 	var err error
 	var tr *rpc.Transport
+	warm := x.Choose(3) // successful exchanges on the connection before the loss
+	n.onDial = func(string) { n.conns[len(n.conns)-1].end.p.cutDrop[1] = 1 + warm }
+	warmup := func(call func(a *[]byte, r *[]byte) error) {
+		for i := 0; i < warm; i++ {
+			a := mkPayload(byte(0x30+i), 0, 12)
+			var r []byte
+			if e := call(&a, &r); e != nil || !eqBytes(r, transform(a)) {
+				x.Fail("C04/warm-up-failed", "warm-up call %d: %v", i, e)
+			}
+		}
+	}
 	if via == 0 {
 		conn, derr := rpc.DialWithOptions("srv", so.options(n, 64))
 		if derr != nil {
 			vs.Fatal("dial")
 		}
+		warmup(func(a *[]byte, r *[]byte) error { return conn.Call("Svc.Echo", a, r) })
 		err = conn.Call("Svc.Echo", &args, &reply)
 		conn.Close()
 	} else {
 		tr = &rpc.Transport{Options: so.options(n, 64)}
-		err = tr.Call("srv", "Svc.Echo", &args, &reply)
+		warmup(func(a *[]byte, r *[]byte) error { return tr.Call("srv", "Svc.Echo", a, r) })
+		if x.Choose(2) == 0 {
+			err = tr.Call("srv", "Svc.Echo", &args, &reply)
+		} else {
+			err = tr.CallWithContext(context.Background(), "srv", "Svc.Echo", &args, &reply)
+		}
 	}
 	vs.Quiesce()
 	if err == nil {
@@ -263,7 +280,7 @@ func c04Lost(x *X) {
 	if w.execs[7] != 1 {
 		x.Fail(fmt.Sprintf("C04/executions=%d/after-loss", w.execs[7]), "the request was executed %d times although its call failed once (no retry is allowed)", w.execs[7])
 	}
-	x.Outcome("via=%d err=%s execs=%d dials=%d", via, errStr(err), w.execs[7], n.dials["srv"])
+	x.Outcome("via=%d warm=%d err=%s execs=%d dials=%d", via, warm, errStr(err), w.execs[7], n.dials["srv"])
 	if tr != nil {
 		tr.Close()
 	}
